@@ -350,3 +350,21 @@ func TestVerifWitness_C17_tag_tokens_after_non_ascii(t *testing.T) {
 	}
 	fmt.Println("WITNESS-HOLDS")
 }
+
+// C17 server.extractTagTokensFromComment#witness: the tag token sits on the tag, not on an earlier "name:" inside a part
+// that is not a tag.
+func TestVerifWitness_C17_tag_token_in_its_own_part(t *testing.T) {
+	content := "2024-01-01 x  ; x a:1, a:2\n    assets:a  1\n    assets:b\n"
+	var cols []uint32
+	for _, tk := range tokenizeForSemantics(content) {
+		if tk.line == 0 && tk.tokenType == TokenTypeTag {
+			cols = append(cols, tk.col)
+		}
+	}
+	want := uint32(strings.LastIndex(content, "a:2"))
+	if len(cols) != 1 || cols[0] != want {
+		fmt.Printf("WITNESS-FAILS %q: tag tokens at columns %v, the only tag \"a:\" is at column %d\n", strings.Split(content, "\n")[0], cols, want)
+		return
+	}
+	fmt.Println("WITNESS-HOLDS")
+}
